@@ -124,6 +124,566 @@ invariant
     merged(out@, lhs@, rhs@, i as int, j as int),
 decreases
     rhs@.len() - j,
+@before `out.push(a_i);`
+    proof { lemma_merge_push(out@, lhs@, rhs@, i as int, j as int, a_i, 1, 0); }
+@before `out.push(b_j);`
+    proof { lemma_merge_push(out@, lhs@, rhs@, i as int, j as int, b_j, 0, 1); }
+@before #2 `out.push(a_i);`
+    proof { lemma_merge_push(out@, lhs@, rhs@, i as int, j as int, a_i, 1, 1); }
+@before `out.push(*lhs.get_unchecked(i));`
+    proof { lemma_merge_push(out@, lhs@, rhs@, i as int, j as int, lhs@[i as int], 1, 0); }
+@before `out.push(*rhs.get_unchecked(j));`
+    proof { lemma_merge_push(out@, lhs@, rhs@, i as int, j as int, rhs@[j as int], 0, 1); }
 @fn_end
     proof { lemma_merge_done(out@, lhs@, rhs@); }
 @*/
+
+// ---- C12 definitions (same wording as units/inc/matrix_ops.inc.rs) ----
+
+/// the unordered pair {u, v} is joined by exactly one arc
+spec fn joined_once(g: AdjacencyList, u: int, v: int) -> bool { g.has(u, v) != g.has(v, u) }
+
+/// C12: every unordered pair of distinct vertices is joined by exactly one arc
+spec fn tournament(g: AdjacencyList) -> bool {
+    forall|u: int, v: int| 0 <= u < g.ord() && 0 <= v < g.ord() && u != v ==> #[trigger] joined_once(g, u, v)
+}
+
+/// what the inner loop of is_tournament decides for one u
+spec fn row_joined_once(g: AdjacencyList, u: int) -> bool {
+    forall|v: int| u < v < g.ord() ==> #[trigger] joined_once(g, u, v)
+}
+
+proof fn lemma_tournament_rows(g: AdjacencyList)
+    ensures tournament(g) == (forall|u: int| 0 <= u < g.ord() ==> #[trigger] row_joined_once(g, u)),
+{
+    if forall|u: int| 0 <= u < g.ord() ==> #[trigger] row_joined_once(g, u) {
+        assert forall|u: int, v: int| 0 <= u < g.ord() && 0 <= v < g.ord() && u != v implies #[trigger] joined_once(g, u, v) by {
+            if u < v { assert(row_joined_once(g, u)); } else { assert(row_joined_once(g, v)); assert(joined_once(g, v, u)); }
+        }
+    }
+}
+
+// ---- counting over an abstract arc set: the number of unordered pairs of n vertices is n(n-1)/2 ----
+
+/// the pairs (0, b), .., (k-1, b)
+spec fn column(k: int, b: int) -> Set<(int, int)> { Set::<int>::range(0, k).map(|a: int| (a, b)) }
+
+/// the unordered pairs of 0..n, coded as (a, b) with a < b
+spec fn upper_pairs(n: int) -> Set<(int, int)>
+    decreases n,
+{
+    if n <= 1 { Set::empty() } else { upper_pairs(n - 1) + column(n - 1, n - 1) }
+}
+
+proof fn lemma_column(k: int, b: int)
+    requires k >= 0,
+    ensures column(k, b).len() == k, forall|p: (int, int)| #[trigger] column(k, b).contains(p) == (0 <= p.0 < k && p.1 == b),
+{
+    let rn = Set::<int>::range(0, k);
+    vstd::set_lib::range_set_properties::<int>(0, k);
+    let g = |a: int| (a, b);
+    assert(rn.injective_on(g)) by {
+        assert forall|x1: int, x2: int| rn.contains(x1) && rn.contains(x2) && g(x1) == g(x2) implies x1 == x2 by {}
+    }
+    assert forall|p: (int, int)| #[trigger] column(k, b).contains(p) == (0 <= p.0 < k && p.1 == b) by {
+        rn.lemma_map_contains(g, p);
+        if 0 <= p.0 < k && p.1 == b { assert(rn.contains(p.0) && g(p.0) == p); }
+    }
+    vstd::set_lib::lemma_map_size(rn, column(k, b), g);
+}
+
+proof fn lemma_upper_pairs(n: int)
+    requires n >= 0,
+    ensures
+        upper_pairs(n).len() * 2 == n * n - n,
+        forall|p: (int, int)| #[trigger] upper_pairs(n).contains(p) == (0 <= p.0 < p.1 < n),
+    decreases n,
+{
+    if n <= 1 {
+        assert(n * n - n == 0) by (nonlinear_arith) requires n == 0 || n == 1;
+        assert(upper_pairs(n).len() == 0);
+    } else {
+        lemma_upper_pairs(n - 1);
+        lemma_column(n - 1, n - 1);
+        let prev = upper_pairs(n - 1);
+        let col = column(n - 1, n - 1);
+        assert(prev.disjoint(col));
+        vstd::set_lib::lemma_set_disjoint_lens(prev, col);
+        assert(upper_pairs(n) == prev + col);
+        assert(upper_pairs(n).len() == prev.len() + (n - 1));
+        assert((n - 1) * (n - 1) - (n - 1) + 2 * (n - 1) == n * n - n) by (nonlinear_arith);
+    }
+}
+
+/// the arc set is inside V x V minus the diagonal
+spec fn arcs_in_range(n: int, arcs: Set<(int, int)>) -> bool {
+    forall|p: (int, int)| #[trigger] arcs.contains(p) ==> 0 <= p.0 < n && 0 <= p.1 < n && p.0 != p.1
+}
+spec fn set_joined(arcs: Set<(int, int)>, u: int, v: int) -> bool { arcs.contains((u, v)) || arcs.contains((v, u)) }
+spec fn set_joined_once(arcs: Set<(int, int)>, u: int, v: int) -> bool { arcs.contains((u, v)) != arcs.contains((v, u)) }
+spec fn set_semicomplete(n: int, arcs: Set<(int, int)>) -> bool {
+    forall|u: int, v: int| 0 <= u < n && 0 <= v < n && u != v ==> #[trigger] set_joined(arcs, u, v)
+}
+spec fn set_tournament(n: int, arcs: Set<(int, int)>) -> bool {
+    forall|u: int, v: int| 0 <= u < n && 0 <= v < n && u != v ==> #[trigger] set_joined_once(arcs, u, v)
+}
+/// the arc chosen for the unordered pair p = (a, b), a < b: a -> b if present, else b -> a
+spec fn pair_arc(arcs: Set<(int, int)>, p: (int, int)) -> (int, int) { if arcs.contains(p) { p } else { (p.1, p.0) } }
+
+/// semicomplete ==> at least one arc per unordered pair ==> |A| >= n(n-1)/2;  tournament ==> exactly one ==> |A| == n(n-1)/2
+proof fn lemma_set_pair_count(n: int, arcs: Set<(int, int)>)
+    requires n >= 1, arcs_in_range(n, arcs),
+    ensures
+        set_semicomplete(n, arcs) ==> arcs.len() * 2 >= n * n - n,
+        set_tournament(n, arcs) ==> arcs.len() * 2 == n * n - n,
+{
+    let u = upper_pairs(n);
+    let f = |p: (int, int)| pair_arc(arcs, p);
+    lemma_upper_pairs(n);
+    if set_tournament(n, arcs) {
+        assert forall|a: int, b: int| 0 <= a < n && 0 <= b < n && a != b implies #[trigger] set_joined(arcs, a, b) by {
+            assert(set_joined_once(arcs, a, b));
+        }
+    }
+    if set_semicomplete(n, arcs) {
+        assert(u.injective_on(f)) by {
+            assert forall|x1: (int, int), x2: (int, int)| u.contains(x1) && u.contains(x2) && f(x1) == f(x2) implies x1 == x2 by {}
+        }
+        let img = u.map(f);
+        assert(img.subset_of(arcs)) by {
+            assert forall|q: (int, int)| img.contains(q) implies arcs.contains(q) by {
+                u.lemma_map_contains(f, q);
+                let p = choose|p: (int, int)| u.contains(p) && q == f(p);
+                assert(set_joined(arcs, p.0, p.1));
+            }
+        }
+        vstd::set_lib::lemma_map_size(u, img, f);
+        vstd::set_lib::lemma_len_subset(img, arcs);
+        if set_tournament(n, arcs) {
+            assert(arcs.subset_of(img)) by {
+                assert forall|q: (int, int)| arcs.contains(q) implies img.contains(q) by {
+                    u.lemma_map_contains(f, q);
+                    if q.0 < q.1 {
+                        assert(u.contains(q) && f(q) == q);
+                    } else {
+                        let t = (q.1, q.0);
+                        assert(set_joined_once(arcs, q.0, q.1));
+                        assert(u.contains(t) && f(t) == q);
+                    }
+                }
+            }
+            assert(arcs =~= img);
+        }
+    }
+}
+
+
+// ---- the number of arcs of a list: sum of the row sizes = size of the arc set ----
+
+/// |row 0| + .. + |row k-1|
+spec fn rows_sum(g: AdjacencyList, k: int) -> int
+    decreases k,
+{
+    if k <= 0 { 0 } else { rows_sum(g, k - 1) + g.arcs@[k - 1]@.len() }
+}
+
+/// the arcs leaving u, as pairs
+spec fn row_pairs(g: AdjacencyList, u: int) -> Set<(int, int)> { g.arcs@[u]@.map(|x: usize| (u, x as int)) }
+
+/// the arcs leaving 0..k
+spec fn arcs_upto(g: AdjacencyList, k: int) -> Set<(int, int)>
+    decreases k,
+{
+    if k <= 0 { Set::empty() } else { arcs_upto(g, k - 1) + row_pairs(g, k - 1) }
+}
+
+proof fn lemma_row_pairs(g: AdjacencyList, u: int)
+    requires 0 <= u < g.ord(),
+    ensures
+        row_pairs(g, u).len() == g.arcs@[u]@.len(),
+        forall|p: (int, int)| #[trigger] row_pairs(g, u).contains(p) == (p.0 == u && g.has(p.0, p.1)),
+{
+    let row = g.arcs@[u]@;
+    let f = |x: usize| (u, x as int);
+    assert(row.injective_on(f)) by {
+        assert forall|x1: usize, x2: usize| row.contains(x1) && row.contains(x2) && f(x1) == f(x2) implies x1 == x2 by {}
+    }
+    assert forall|p: (int, int)| #[trigger] row_pairs(g, u).contains(p) == (p.0 == u && g.has(p.0, p.1)) by {
+        row.lemma_map_contains(f, p);
+        if p.0 == u && g.has(p.0, p.1) { assert(row.contains(p.1 as usize) && f(p.1 as usize) == p); }
+    }
+    vstd::set_lib::lemma_map_size(row, row_pairs(g, u), f);
+}
+
+/// faithfulness of the count: the arc set of rows 0..k has rows_sum(k) elements and is exactly the relation `has` there
+proof fn lemma_arcs_upto(g: AdjacencyList, k: int)
+    requires 0 <= k <= g.ord(),
+    ensures
+        arcs_upto(g, k).len() == rows_sum(g, k),
+        forall|p: (int, int)| #[trigger] arcs_upto(g, k).contains(p) == (0 <= p.0 < k && g.has(p.0, p.1)),
+    decreases k,
+{
+    if k > 0 {
+        lemma_arcs_upto(g, k - 1);
+        lemma_row_pairs(g, k - 1);
+        let prev = arcs_upto(g, k - 1);
+        let row = row_pairs(g, k - 1);
+        assert(prev.disjoint(row));
+        vstd::set_lib::lemma_set_disjoint_lens(prev, row);
+        assert(arcs_upto(g, k) == prev + row);
+    }
+}
+
+/// the counting fact at the list: a tournament has exactly n(n-1)/2 arcs
+proof fn lemma_pair_count(g: AdjacencyList)
+    requires g.wf(),
+    ensures
+        tournament(g) ==> rows_sum(g, g.ord()) * 2 == g.ord() * g.ord() - g.ord(),
+{
+    let n = g.ord();
+    let arcs = arcs_upto(g, n);
+    lemma_arcs_upto(g, n);
+    lemma_list_wf_has(g);
+    assert(arcs_in_range(n, arcs)) by {
+        assert forall|p: (int, int)| #[trigger] arcs.contains(p) implies 0 <= p.0 < n && 0 <= p.1 < n && p.0 != p.1 by {
+            assert(g.has(p.0, p.1));
+        }
+    }
+    if tournament(g) {
+        assert forall|u: int, v: int| 0 <= u < n && 0 <= v < n && u != v implies #[trigger] set_joined_once(arcs, u, v) by {
+            assert(joined_once(g, u, v));
+        }
+    }
+    lemma_set_pair_count(n, arcs);
+}
+
+impl AdjacencyList {
+    // A (assumed contract on crate code, needed because is_tournament calls it): AdjacencyList::size == number of arcs
+    // (rustdoc of `Size::size`: "Count the arcs in the digraph").  Its body `self.arcs.iter().map(BTreeSet::len).sum()` uses
+    // `Iterator::sum`, which vstd cannot specify, so it cannot be verified here.  The count is stated as the sum of the row
+    // set sizes (`rows_sum`); lemma_arcs_upto proves that this is the number of elements of the arc relation `has`.
+    // The precondition keeps the sum inside usize (each of the n <= 2^32 rows of a well-formed list has at most n - 1 elements).
+    #[verifier::external_body]
+    fn size(&self) -> (r: usize)
+        requires self.wf(), self.ord() <= 0x1_0000_0000,
+        ensures r == rows_sum(*self, self.ord()),
+    { unimplemented!() }
+
+    // `order * (order - 1)` overflows usize for order > 2^32 (a Vec of more than 2^32 BTreeSets, > 96 GiB): debug builds
+    // panic, release builds wrap.  The contract is proved for order <= 2^32.
+    /*@fn impl=AdjacencyList trait=IsTournament name=is_tournament props=C12,C13
+    requires
+        self.wf(),
+        self.ord() <= 0x1_0000_0000,
+    ensures
+        r == tournament(*self),
+    @after `let order = self.order();`
+        proof {
+            assert(order * (order - 1) == order * order - order) by (nonlinear_arith) requires order >= 1;
+            assert(order * (order - 1) <= usize::MAX) by (nonlinear_arith) requires 1 <= order <= 0x1_0000_0000;
+            lemma_pair_count(*self);
+            lemma_tournament_rows(*self);
+        }
+    @loop 1
+    invariant
+        order == self.ord(),
+        forall|a: int| 0 <= a < u ==> #[trigger] row_joined_once(*self, a),
+    @loop 2
+    invariant
+        order == self.ord(),
+        u < order,
+        forall|c: int| u < c < v ==> #[trigger] joined_once(*self, u as int, c),
+    @before #2 `return false;`
+        proof { assert(!joined_once(*self, u as int, v as int)); }
+    @*/
+}
+
+// ---- the list's own arc iterator (used by `From<I>`): contract of `next` over the abstract "pending arcs" state ----
+// (same contract as in units/inc/conversions.inc.rs, restated here so that this unit is self-contained)
+
+spec fn is_id(a: int) -> bool { 0 <= a <= usize::MAX }
+
+/*@struct name=ArcsIterator @*/
+
+impl<'a> ArcsIterator<'a> {
+    /// items the row iterator still holds (row u - 1)
+    #[verifier::prophetic]
+    spec fn rem(&self) -> Seq<&'a usize> {
+        if self.inner is Some { self.inner->0.remaining() } else { Seq::empty() }
+    }
+    /// abstract state: the arc (a, b) has not been produced yet and will be
+    #[verifier::prophetic]
+    spec fn pending(&self, a: int, b: int) -> bool {
+        ||| self.u <= a < self.arcs@.len() && is_id(b) && self.arcs@[a]@.contains(b as usize)
+        ||| a == self.u - 1 && exists|i: int| 0 <= i < self.rem().len() && *(#[trigger] self.rem()[i]) == b
+    }
+    /// representation invariant of the iterator
+    #[verifier::prophetic]
+    spec fn inv(&self) -> bool {
+        &&& self.u <= self.arcs@.len()
+        &&& self.inner is Some ==> {
+            &&& self.u >= 1
+            &&& self.inner->0.obeys_prophetic_iter_laws()
+            &&& self.inner->0.decrease() is Some
+            &&& self.row_left() >= 0
+            &&& forall|i: int| 0 <= i < self.rem().len() ==> self.arcs@[self.u - 1]@.contains(*(#[trigger] self.rem()[i]))
+            &&& forall|i: int, j: int| 0 <= i < j < self.rem().len() ==> *(#[trigger] self.rem()[i]) != *(#[trigger] self.rem()[j])
+        }
+    }
+    /// termination measure of a driver loop: rows not loaded yet, items left in the loaded row
+    spec fn rows_left(&self) -> int { self.arcs@.len() - self.u }
+    spec fn row_left(&self) -> int {
+        if self.inner is Some && self.inner->0.decrease() is Some { self.inner->0.decrease()->0 as int } else { 0 }
+    }
+
+    /*@fn impl=ArcsIterator trait=Iterator name=next subst=Self::Item=>(usize,usize)
+    requires
+        old(self).inv(),
+    ensures
+        list_arcs_step(*old(self), *final(self), r),
+    @loop 1
+    invariant
+        self.inv(),
+        self.arcs == old(self).arcs,
+        forall|a: int, b: int| #![trigger self.pending(a, b)] self.pending(a, b) == old(self).pending(a, b),
+        self.rows_left() <= old(self).rows_left(),
+        self.rows_left() == old(self).rows_left() ==> self.row_left() <= old(self).row_left(),
+    decreases
+        self.rows_left(),
+    @loop_start 1
+        let ghost s0 = *self;
+    @before `return Some((self.u - 1, v));`
+        proof {
+            let r0 = s0.rem();
+            let r1 = self.rem();
+            assert(r0.len() > 0 && r1 == r0.drop_first() && v == *r0[0]);
+            assert forall|i: int| 0 <= i < r1.len() implies #[trigger] r1[i] == r0[i + 1] by {}
+            assert forall|a: int, b: int| #![trigger self.pending(a, b)] self.pending(a, b) == (s0.pending(a, b) && !(a == self.u - 1 && b == v)) by {
+                if a == self.u - 1 {
+                    if self.pending(a, b) {
+                        let i = choose|i: int| 0 <= i < r1.len() && *(#[trigger] r1[i]) == b;
+                        assert(*r0[i + 1] == b);
+                    }
+                    if s0.pending(a, b) && b != v {
+                        let i = choose|i: int| 0 <= i < r0.len() && *(#[trigger] r0[i]) == b;
+                        assert(*r1[i - 1] == b);
+                    }
+                }
+            }
+            assert(s0.pending(self.u - 1, v as int)) by { assert(*r0[0] == v); }
+        }
+    @before `if self.u >= self.arcs.len()`
+        let ghost s1 = *self;
+        proof {
+            assert(s1.rem().len() == 0);
+            assert forall|a: int, b: int| #![trigger s1.pending(a, b)] s1.pending(a, b) == s0.pending(a, b) by {}
+        }
+    @before `return None;`
+        proof {
+            assert forall|a: int, b: int| !old(self).pending(a, b) && !self.pending(a, b) by {
+                assert(s0.pending(a, b) == old(self).pending(a, b));
+                assert(s1.pending(a, b) == s0.pending(a, b));
+            }
+        }
+    @after `self.u += 1;`
+        proof {
+            broadcast use vstd::laws_cmp::group_laws_cmp;
+            assert(vstd::laws_cmp::obeys_cmp::<usize>());
+            let row = self.arcs@[s1.u as int]@;
+            let r1 = self.rem();
+            assert(r1.unref().to_set() == row);
+            assert forall|i: int| 0 <= i < r1.len() implies row.contains(*(#[trigger] r1[i])) by {
+                assert(r1.unref()[i] == *r1[i]);
+                assert(r1.unref().to_set().contains(r1.unref()[i]));
+            }
+            assert forall|a: int, b: int| #![trigger self.pending(a, b)] self.pending(a, b) == s1.pending(a, b) by {
+                if a == s1.u && is_id(b) {
+                    if row.contains(b as usize) {
+                        assert(r1.unref().to_set().contains(b as usize));
+                        let i = choose|i: int| 0 <= i < r1.unref().len() && r1.unref()[i] == b as usize;
+                        assert(*r1[i] == b);
+                    }
+                }
+            }
+        }
+    @*/
+}
+
+/// contract of one `next()` call from state s to state t with result r
+#[verifier::prophetic]
+spec fn list_arcs_step(s: ArcsIterator, t: ArcsIterator, r: Option<(usize, usize)>) -> bool {
+    &&& t.inv()
+    &&& t.arcs == s.arcs
+    &&& r matches Some(p) ==> {
+        &&& p.0 < s.arcs@.len()
+        &&& s.arcs@[p.0 as int]@.contains(p.1)
+        &&& s.pending(p.0 as int, p.1 as int)
+        &&& forall|a: int, b: int| #![trigger t.pending(a, b)] t.pending(a, b) == (s.pending(a, b) && !(a == p.0 && b == p.1))
+        &&& (t.rows_left() < s.rows_left() || (t.rows_left() == s.rows_left() && t.row_left() < s.row_left()))
+    }
+    &&& r is None ==> forall|a: int, b: int| !s.pending(a, b) && !t.pending(a, b)
+}
+
+
+/// building from an iterator of out-neighbour sets: the rows are kept as given
+spec fn rows_kept(g: AdjacencyList, rows: Seq<BTreeSet<usize>>) -> bool {
+    &&& g.arcs@.len() == rows.len()
+    &&& forall|i: int| 0 <= i < rows.len() ==> #[trigger] g.arcs@[i]@ == rows[i]@
+}
+
+impl AdjacencyList {
+    /*@fn impl=AdjacencyList trait=From implhas='impl<I> From<I>' name=from subst=I=>Vec<BTreeSet<usize>> drop=I dropwhere=I props=C14,C13
+    ensures
+        r.wf(),
+        rows_kept(r, iter@),
+    @manual `for (u, v) in digraph.arcs()` => `let mut arcs_it = ArcsIterator { arcs: &digraph.arcs, u: 0, inner: None }; while let Some((u, v)) = arcs_it.next()` :: E8b (iterinline) needs the iterator-returning method to be `Ctor(self)`; AdjacencyList::arcs is the struct literal `ArcsIterator { arcs: &self.arcs, u: 0, inner: None }` returned as `impl Iterator` (subst cannot rewrite an impl-Trait return type), inlined here by hand together with the language-defined for-desugaring
+    @loop 1
+    invariant
+        arcs_it.inv(),
+        arcs_it.arcs@ == digraph.arcs@,
+        order == digraph.arcs@.len(),
+        forall|a: int, b: int| #![trigger digraph.has(a, b)] digraph.has(a, b) && !arcs_it.pending(a, b) ==> b < order && a != b,
+    ensures
+        forall|a: int, b: int| !arcs_it.pending(a, b),
+    decreases
+        arcs_it.rows_left(), arcs_it.row_left(),
+    @fn_end
+        proof { lemma_list_wf_has(digraph); }
+    @*/
+
+    /*@fn impl=AdjacencyList trait=Empty name=empty props=C14,C13
+    ensures
+        order > 0,
+        r.wf(),
+        r.ord() == order,
+        forall|a: int, b: int| #![trigger r.has(a, b)] !r.has(a, b),
+    @*/
+
+    /*@fn trait=Empty name=trivial file=src/gen/empty.rs dropwhere=Self props=C14
+    ensures
+        r.wf(),
+        r.ord() == 1,
+        forall|a: int, b: int| #![trigger r.has(a, b)] !r.has(a, b),
+    @*/
+}
+
+// ---- C14: defining arc predicates, each written from the property text (identical to units/inc/matrix_gen.inc.rs) ----
+
+/// complete(n) has all n(n-1) arcs: every ordered pair of distinct vertices
+spec fn complete_arc(n: int, a: int, b: int) -> bool {
+    0 <= a < n && 0 <= b < n && a != b
+}
+
+/// circuit(n) has the arcs i -> (i+1) mod n (none for n = 1)
+spec fn circuit_arc(n: int, a: int, b: int) -> bool {
+    n > 1 && 0 <= a < n && 0 <= b < n && b == (a + 1) % n
+}
+
+/// cycle(n) has those arcs and their reverses
+spec fn cycle_arc(n: int, a: int, b: int) -> bool {
+    circuit_arc(n, a, b) || circuit_arc(n, b, a)
+}
+
+/// path(n) has i -> i+1 for i < n-1
+spec fn path_arc(n: int, a: int, b: int) -> bool {
+    0 <= a < n - 1 && b == a + 1
+}
+
+// ---- proof helpers: `% n` free form of the circuit predicate ----
+
+/// successor on the n-circuit without `%`
+spec fn circuit_lin(n: int, a: int, b: int) -> bool {
+    n > 1 && 0 <= a < n && b == (if a == n - 1 { 0 } else { a + 1 })
+}
+
+spec fn circuit_mod_ok(n: int) -> bool {
+    forall|a: int, b: int| #[trigger] circuit_arc(n, a, b) == circuit_lin(n, a, b)
+}
+
+proof fn lemma_circuit_lin(n: int)
+    ensures circuit_mod_ok(n),
+{
+    assert forall|a: int, b: int| #[trigger] circuit_arc(n, a, b) == circuit_lin(n, a, b) by {
+        if n > 1 && 0 <= a < n {
+            if a == n - 1 {
+                vstd::arithmetic::div_mod::lemma_mod_self_0(n);
+            } else {
+                vstd::arithmetic::div_mod::lemma_small_mod((a + 1) as nat, n as nat);
+            }
+        }
+    }
+}
+
+
+impl AdjacencyList {
+    /*@fn impl=AdjacencyList trait=Circuit name=circuit props=C14,C13
+    ensures
+        order >= 1,
+        r.wf(),
+        r.ord() == order,
+        forall|a: int, b: int| #![trigger r.has(a, b)] r.has(a, b) == circuit_arc(order as int, a, b),
+    @closure 1 |u: usize| -> (s: BTreeSet<usize>)
+    requires
+        order > 1,
+    ensures
+        forall|x: usize| #[trigger] s@.contains(x) == (x == u % order),
+    @fn_start
+        broadcast use vstd::std_specs::iter::group_iter_axioms;
+        proof {
+            // the list is the tail expression: well-formedness is derived from the arc postcondition for any candidate result
+            let n = order as int;
+            lemma_circuit_lin(n);
+            assert forall|g: AdjacencyList| n > 1 && g.ord() == n && (forall|a: int, b: int| #![trigger g.has(a, b)] g.has(a, b) == circuit_arc(n, a, b))
+                implies #[trigger] g.wf() by {
+                lemma_list_wf_has(g);
+                assert forall|a: int, b: int| #[trigger] g.has(a, b) implies 0 <= a < n && 0 <= b < n && a != b by {
+                    assert(circuit_arc(n, a, b) == circuit_lin(n, a, b));
+                }
+            }
+        }
+    @*/
+
+    // `u + order - 1` needs order <= usize::MAX / 2 + 1.  A Vec<BTreeSet<usize>> has at most isize::MAX / 24 elements (larger
+    // orders end in the allocator's capacity-overflow panic before the closure runs); Verus does not model the allocation
+    // bound, so it is a precondition here.
+    /*@fn impl=AdjacencyList trait=Cycle name=cycle props=C14,C13
+    requires
+        order <= 0x7fff_ffff_ffff_ffff,
+    ensures
+        order >= 1,
+        r.wf(),
+        r.ord() == order,
+        forall|a: int, b: int| #![trigger r.has(a, b)] r.has(a, b) == cycle_arc(order as int, a, b),
+    @closure 1 |u: usize| -> (s: BTreeSet<usize>)
+    requires
+        order > 1,
+        u < order,
+        order <= 0x7fff_ffff_ffff_ffff,
+    ensures
+        forall|x: usize| #[trigger] s@.contains(x) == (x == (u + order - 1) % (order as int) || x == (u + 1) % (order as int)),
+    @fn_start
+        broadcast use vstd::std_specs::iter::group_iter_axioms;
+        proof {
+            let n = order as int;
+            lemma_circuit_lin(n);
+            assert forall|g: AdjacencyList| n > 1 && g.ord() == n && (forall|a: int, b: int| #![trigger g.has(a, b)] g.has(a, b) == cycle_arc(n, a, b))
+                implies #[trigger] g.wf() by {
+                lemma_list_wf_has(g);
+                assert forall|a: int, b: int| #[trigger] g.has(a, b) implies 0 <= a < n && 0 <= b < n && a != b by {
+                    assert(circuit_arc(n, a, b) == circuit_lin(n, a, b));
+                    assert(circuit_arc(n, b, a) == circuit_lin(n, b, a));
+                }
+            }
+            // predecessor on the n-circuit: (u + n - 1) % n == b  <==>  (b + 1) % n == u
+            assert forall|u: int, b: int| 0 <= u < n && 0 <= b < n && n > 1 implies (#[trigger] circuit_arc(n, b, u) == (b == (u + n - 1) % n)) by {
+                assert(circuit_arc(n, b, u) == circuit_lin(n, b, u));
+                if u == 0 {
+                    vstd::arithmetic::div_mod::lemma_small_mod((n - 1) as nat, n as nat);
+                } else {
+                    vstd::arithmetic::div_mod::lemma_mod_add_multiples_vanish(u - 1, n);
+                    vstd::arithmetic::div_mod::lemma_small_mod((u - 1) as nat, n as nat);
+                }
+            }
+        }
+    @*/
+}
